@@ -112,6 +112,106 @@ theorem driver_order_invariant {vs vs' : List Vehicle} (hp : vs.Perm vs') (hnd :
     (by intro a b; simp only [decide_eq_true_eq]; omega) h1 (hs vs) (hs vs')
     (by intro a; simp)
 
+section SortingOn
+variable {α : Type} {le : α → α → Bool}
+
+/-- as `eq_of_perm_of_sorted`, with antisymmetry required only among the elements in play (records
+    with unique ids: two *different* records with the same key do not occur in one collection) -/
+theorem eq_of_perm_of_sorted_on {l l' : List α}
+    (hanti : ∀ a ∈ l, ∀ b ∈ l, le a b = true → le b a = true → a = b)
+    (hp : l.Perm l') (hs : l.Pairwise (fun a b => le a b = true))
+    (hs' : l'.Pairwise (fun a b => le a b = true)) : l = l' := by
+  induction l generalizing l' with
+  | nil => exact (List.perm_nil.mp hp.symm).symm ▸ rfl
+  | cons x xs ih =>
+    cases l' with
+    | nil => exact absurd hp.length_eq (by simp)
+    | cons y ys =>
+      rw [List.pairwise_cons] at hs hs'
+      have hxy : x = y := by
+        have hx : x ∈ y :: ys := hp.mem_iff.mp List.mem_cons_self
+        have hy : y ∈ x :: xs := hp.mem_iff.mpr List.mem_cons_self
+        rcases List.mem_cons.mp hx with h | h
+        · exact h
+        · rcases List.mem_cons.mp hy with h' | h'
+          · exact h'.symm
+          · exact hanti x List.mem_cons_self y (List.mem_cons_of_mem _ h') (hs.1 y h') (hs'.1 x h)
+      subst hxy
+      rw [ih (fun a ha b hb => hanti a (List.mem_cons_of_mem _ ha) b (List.mem_cons_of_mem _ hb))
+        (List.Perm.cons_inv hp) hs.2 hs'.2]
+
+theorem sortBy_eq_of_perm_on (htot : ∀ a b, le a b = true ∨ le b a = true)
+    (htr : ∀ a b c, le a b = true → le b c = true → le a c = true)
+    {l l' : List α} (hanti : ∀ a ∈ l, ∀ b ∈ l, le a b = true → le b a = true → a = b)
+    (hp : l.Perm l') : sortBy le l = sortBy le l' := by
+  apply eq_of_perm_of_sorted_on _ (((sortBy_perm le l).trans hp).trans (sortBy_perm le l').symm)
+    (sortBy_pairwise htot htr l) (sortBy_pairwise htot htr l')
+  intro a ha b hb
+  exact hanti a ((sortBy_perm le l).mem_iff.mp ha) b ((sortBy_perm le l).mem_iff.mp hb)
+
+end SortingOn
+
+theorem lexLe_total (p q : Int × Nat) : lexLe p q = true ∨ lexLe q p = true := by
+  obtain ⟨a, b⟩ := p; obtain ⟨c, d⟩ := q
+  simp only [lexLe, Bool.or_eq_true, Bool.and_eq_true, decide_eq_true_eq, beq_iff_eq]
+  omega
+
+theorem lexLe_trans {p q r : Int × Nat} (h1 : lexLe p q = true) (h2 : lexLe q r = true) : lexLe p r = true := by
+  obtain ⟨a, b⟩ := p; obtain ⟨c, d⟩ := q; obtain ⟨e, f⟩ := r
+  simp only [lexLe, Bool.or_eq_true, Bool.and_eq_true, decide_eq_true_eq, beq_iff_eq] at *
+  omega
+
+theorem lexLe_antisymm {p q : Int × Nat} (h1 : lexLe p q = true) (h2 : lexLe q p = true) : p = q := by
+  obtain ⟨a, b⟩ := p; obtain ⟨c, d⟩ := q
+  simp only [lexLe, Bool.or_eq_true, Bool.and_eq_true, decide_eq_true_eq, beq_iff_eq] at *
+  have : a = c ∧ b = d := by omega
+  rw [this.1, this.2]
+
+/-- two vehicles of one collection with the same id are the same record -/
+theorem eq_of_id_eq {vs : List Vehicle} (hnd : (vs.map Vehicle.id).Nodup) {a b : Vehicle}
+    (ha : a ∈ vs) (hb : b ∈ vs) (h : a.id = b.id) : a = b := by
+  have h1 := lookup_of_mem (key := Vehicle.id) hnd ha
+  have h2 := lookup_of_mem (key := Vehicle.id) hnd hb
+  rw [h, h2] at h1
+  exact (Option.some.inj h1).symm
+
+/-- **the vehicle update order (`perform_vehicle_state_updates` → `_sort_by_vehicle_state`) does not
+    depend on the order in which the vehicle Map hands out its values**: for every permutation of
+    the collection (= every hash seed) the same sequence of *records* is stepped - vehicles that
+    are not queueing by id, then the queueing ones by (enqueue time, id). This is the one place of the
+    step where the code iterates `vehicles.values()` directly (iteration-site table,
+    `C01Sites.reviewed`). -/
+theorem update_order_invariant {vs vs' : List Vehicle} (hp : vs.Perm vs')
+    (hnd : (vs.map Vehicle.id).Nodup) : updateOrder vs = updateOrder vs' := by
+  unfold updateOrder
+  simp only
+  congr 1
+  · apply sortBy_eq_of_perm_on (le := fun (a b : Vehicle) => decide (a.id ≤ b.id))
+    · intro a b; simp only [decide_eq_true_eq]; exact Nat.le_total a.id b.id
+    · intro a b c; simp only [decide_eq_true_eq]; exact Nat.le_trans
+    · intro a ha b hb h1 h2
+      simp only [decide_eq_true_eq] at h1 h2
+      exact eq_of_id_eq hnd (List.mem_filter.mp ha).1 (List.mem_filter.mp hb).1 (Nat.le_antisymm h1 h2)
+    · exact hp.filter _
+  · apply sortBy_eq_of_perm_on
+    · intro a b; exact lexLe_total _ _
+    · intro a b c; exact lexLe_trans
+    · intro a ha b hb h1 h2
+      have hk := lexLe_antisymm h1 h2
+      have hid : a.id = b.id := by
+        revert hk
+        cases a.act <;> cases b.act <;> simp only [Prod.mk.injEq] <;> exact fun h => h.2
+      exact eq_of_id_eq hnd (List.mem_filter.mp ha).1 (List.mem_filter.mp hb).1 hid
+    · exact hp.filter _
+
+/-- **not vacuous**: two hand-out orders of three vehicles, one of them queueing -/
+example :
+    let v (i : Nat) (a : Act) : Vehicle := { (default : Vehicle) with id := i, act := a }
+    updateOrder [v 3 (.idle 0), v 1 (.chargeQueueing 0 0 5), v 2 (.idle 0)] =
+      updateOrder [v 2 (.idle 0), v 3 (.idle 0), v 1 (.chargeQueueing 0 0 5)] ∧
+    (updateOrder [v 3 (.idle 0), v 1 (.chargeQueueing 0 0 5), v 2 (.idle 0)]).map Vehicle.id = [2, 3, 1] := by
+  decide
+
 /-- **not vacuous**: three permutations of one id set, one order -/
 example : sortBy (fun a b => decide (a ≤ b)) [3, 1, 2] = [1, 2, 3] ∧
     sortBy (fun a b => decide (a ≤ b)) [2, 3, 1] = [1, 2, 3] ∧ sortBy (fun a b => decide (a ≤ b)) [1, 3, 2] = [1, 2, 3] := by
